@@ -38,6 +38,9 @@ CHECKS = {
  'C14': ('metamorphic relation (LF -> CRLF / CR) over bounded-exhaustive and proptest inputs',
          'Every CR-free generated input is re-parsed with CRLF and with lone CR: same events, scalar values, line/col, outcome and error text.',
          'Differential against the implementation itself by design; error index not compared (I14).', '5 C14'),
+ 'C15': ('metamorphic relation over generated stream histories: parse(A1 ... Ak joined by document-end markers) = concatenation of parse(Ai) with anchor ids renumbered',
+         '10^5 (quick) / 2*10^6 (thorough) histories of 2..4 parts drawn from model-rendered streams, the valid test-suite corpus, hand-picked state-stressing parts (all ordered pairs exhaustively) and soups; pull and push events on two back-ends and loaded documents must be the concatenation of the parts.',
+         'Differential against the parser on the parts; paired with C03 which judges the parts against the model.', '5 C15'),
  'C17': ('model-based call-history testing (peek/next interpreter) with exhaustive histories on small streams + differential pull vs push',
          'Cursor model over the plain-iteration event list; all 3^n peek histories for streams <= 8 events and all <= 3-position histories for 9..12 events on small inputs and the corpus, sampled histories elsewhere; load(multi) and repeated load(single) must replay the same (event, span, error) story.',
          'Histories stop at the first error (I4).', '5 C17'),
